@@ -16,6 +16,7 @@ CFG = """CONSTANTS Dg = %d
  Q = %d
  Emit = TRUE
  FirstBase = %d
+ ZeroOrd = %d
 INIT Init
 NEXT Next
 INVARIANT InvOK
@@ -43,22 +44,22 @@ def run(rep, tier, seed):
     algopy = load_algopy()
     from algopy import UTPM
     q = tier == "quick"
-    runs = [(3, 3, 1), (4, 2, 1), (5, 1, 10)] if q else [(3, 6, 1), (4, 4, 1), (5, 3, 10)]
+    runs = [(3, 3, 1, 0), (4, 2, 1, 0), (5, 1, 10, 0), (4, 1, 1, 1), (4, 1, 1, 2)] if q else [(3, 6, 1, 0), (4, 4, 1, 0), (5, 3, 10, 0), (4, 3, 1, 1), (4, 3, 1, 2), (5, 2, 10, 3)]
     recs = []
-    for (D, Q, fb) in runs:
-        res = tlc_ok(run_tlc("MC_LinAlg", CFG % (D, Q, fb), workers=16, timeout=2400), "MC_LinAlg D=%d" % D)
-        rep.add_tlc(res, "MC_LinAlg_D%d" % D)
+    for (D, Q, fb, zo) in runs:
+        res = tlc_ok(run_tlc("MC_LinAlg", CFG % (D, Q, fb, zo), workers=16, timeout=2400), "MC_LinAlg D=%d" % D)
+        rep.add_tlc(res, "MC_LinAlg_D%d_zero%d" % (D, zo))
         for r in res.records:
-            r["D"] = D
+            r["D"] = D; r["zo"] = zo
         recs += res.records
     if not recs:
         raise Machinery("no instances")
     # group instances of equal kind / shapes / D so that two of them form the two directions of one call
     groups = {}
     for r in recs:
-        key = (r["kind"], r["D"], tuple(tuple(a["shape"]) for a in r["inp"]))
+        key = (r["kind"], r["D"], tuple(tuple(a["shape"]) for a in r["inp"]), r["zo"])
         groups.setdefault(key, []).append(r)
-    for (kind, D, shapes), rs in sorted(groups.items()):
+    for (kind, D, shapes, zo), rs in sorted(groups.items()):
         if kind == "solve_vec":
             continue    # UTPM.solve documents (explicit ValueError) that a 1-D right-hand side is not supported; the spec identity is still model-checked
         rs = sorted(rs, key=lambda r: (r["q"], r["b"]))
@@ -79,7 +80,7 @@ def run(rep, tier, seed):
             before = [a.data.copy() if isinstance(a, UTPM) else a.copy() for a in args]
             sig = "%s%s" % (kind, "" if not kind.startswith("dot") else " " + "x".join(str(s) for s in shapes))
             det = {"kind": kind, "D": D, "P": P, "b": [r["b"] for r in pack], "q": [r["q"] for r in pack], "shapes": shapes}
-            rep.case((kind, D, tuple((r["b"], r["q"]) for r in pack)), nontrivial=D >= 2)
+            rep.case((kind, D, zo, tuple((r["b"], r["q"]) for r in pack)), nontrivial=D >= 2)
             rep.replayed(1)
             try:
                 base = kind.split("_")[0]
